@@ -58,17 +58,17 @@ def sol_rep(direction):
     return out
 
 
-def recursive_contract(direction):
+def recursive_contract(direction, dense=False):
     """integrate's own contract (events None, no callbacks) as seen from the recursive call site: the ghost tf_ is the argument t."""
-    c = IC.make_contract(0, extra_post=NO_CALLBACK_POST)
+    c = IC.dense_contract(0, direction, extra_post=NO_CALLBACK_POST) if dense else IC.make_contract(0, extra_post=NO_CALLBACK_POST)
     c2 = copy.copy(c)
     rep = lambda x: x.replace("tf_", "t")
-    c2.requires = [rep(r) for r in c.requires if r != "tf_ == t"]
+    c2.requires = [rep(r) for r in c.requires if r != "tf_ == t" and not r.startswith("tf_ > self.__t") and not r.startswith("tf_ < self.__t")]
     # status: 1 after a normal return (it was not 2 before), the caller overwrites it
     c2.ensures = [rep(r) for r in c.ensures if "self.__int_status == 1" not in r]
     c2.ensures_exc = [rep(r) for r in c.ensures_exc if "self.__int_status is exc" not in r]
     c2.ghost = None
-    c2.modifies = ["self.counter", "self.__t", "self.__y", "self.__dt", "self.__int_status"]
+    c2.modifies = ["self.counter", "self.__t", "self.__y", "self.__dt", "self.__int_status"] + (["self.__sol.*"] if dense else [])
     c2.may_raise = True
     c2.exc_kinds = ("FailedIntegration", "KeyboardInterrupt")
     c2.short = "OdeSystem.integrate"
@@ -81,12 +81,14 @@ NO_CALLBACK_INV = ["self.__dt != 0"]
 NO_CALLBACK_POST = ["implies(abs(tf_ - old(self.__t)[old(self.counter)]) >= eps, abs(tf_ - self.__t[self.counter]) < 8 * eps)"]
 
 
-def verify_recursive_contract(src, reg, prop):
+def verify_recursive_contract(src, reg, prop, dense=False, direction=1):
     """the contract used for the recursive call, proved of integrate() itself (events None, no callbacks)"""
+    if dense:
+        return IC.verify_integrate_dense(src, reg, prop, callbacks=0, direction=direction, extra_inv=NO_CALLBACK_INV, extra_post=NO_CALLBACK_POST)
     return IC.verify_integrate(src, reg, prop, callbacks=0, extra_inv=NO_CALLBACK_INV, extra_post=NO_CALLBACK_POST)
 
 
-def verify_integrate_events(src, reg, prop, n=1, terminals=(False,), direction=1, extra_inv=(), extra_post=(), callbacks=0, outcomes=None):
+def verify_integrate_events(src, reg, prop, n=1, terminals=(False,), direction=1, extra_inv=(), extra_post=(), callbacks=0, outcomes=None, dense=False):
     """outcomes: None = every outcome of handle_events; else a list of tuples of active event indices (and the string "raise") -- the
     outcomes this run explores.  Runs over a partition of the outcomes together verify the loop body (the jobs are run in parallel)."""
     ex = IC.base_executor(src, reg, prop)
@@ -247,7 +249,7 @@ def verify_integrate_events(src, reg, prop, n=1, terminals=(False,), direction=1
             inside = z3.Or(z3.And(es["t_prev"] <= z3.Select(cols["t"], n0 + k), z3.Select(cols["t"], n0 + k) <= es["t_next"]),
                            z3.And(es["t_next"] <= z3.Select(cols["t"], n0 + k), z3.Select(cols["t"], n0 + k) <= es["t_prev"]))
             ex_.prove(st, ctx, z3.Implies(n1 > n0 + k, inside), "post", "recorded-time-inside-the-step-it-was-found-in#%d" % k)
-    ex.contracts["OdeSystem.integrate"] = recursive_contract(direction)
+    ex.contracts["OdeSystem.integrate"] = recursive_contract(direction, dense)
 
     # ---- the contract of the outer call
     c = IC.make_contract(callbacks)
@@ -262,7 +264,7 @@ def verify_integrate_events(src, reg, prop, n=1, terminals=(False,), direction=1
     c.ensures_exc = [lit(x) for x in c.ensures_exc]
     ev_inv = [subst(x, n, direction, "ite(end_int, 8 * eps, 0)") for x in EVENT_INV]
     ev_post = [subst(x, n, direction, "ite(self.__int_status == 2, 8 * eps, 0)") for x in EVENT_INV]
-    sol_inv = [subst(x, n, direction) for x in sol_rep(direction)]
+    sol_inv = list(IC.DENSE_REP if direction > 0 else IC.DENSE_REP_B) if dense else [subst(x, n, direction) for x in sol_rep(direction)]
     # pruning keeps the most recent piece: once this call has recorded a step, the newest piece ends exactly at the current time
     nlen = "len(%s.t_eval)" % SOL
     newest_ix = (nlen + " - 1") if direction > 0 else "0"
@@ -278,7 +280,7 @@ def verify_integrate_events(src, reg, prop, n=1, terminals=(False,), direction=1
     # terminal one, the trajectory ends there (buffers trimmed to it) and the status says so
     TERMINAL = ("self.__int_status == 2 and len(E_V) > n_ev0 and " + is_term(last + ".ev") + " and abs(self.__t[self.counter] - " + last + ".t) < 8 * eps"
                 " and forall(lambda i: implies(n_ev0 <= i and i < len(E_V) - 1, not " + is_term("E_V[i].ev") + "))").replace("E_V", EV)
-    end_inv = ["implies(not end_int, %s)" % sol_recent,
+    end_inv = ["implies(not end_int, %s)" % (sol_recent if not dense else "True"),
                "implies(not end_int, same(self.__int_status, old(self.__int_status)))",
                "implies(not end_int, forall(lambda i: implies(n_ev0 <= i and i < len(E_V), not %s)))".replace("E_V", EV) % is_term(EV + "[i].ev"),
                "implies(end_int, %s)" % TERMINAL]
@@ -290,7 +292,7 @@ def verify_integrate_events(src, reg, prop, n=1, terminals=(False,), direction=1
     drop = ("self.__int_status == 1", "abs(tf_ - self.__t[self.counter]) < 8 * eps")
     c.ensures = [e for e in c.ensures if not any(d in e for d in drop)] + ev_post + sol_inv + [
         "implies(abs(tf_ - old(self.__t)[old(self.counter)]) >= eps, self.__int_status == 1 or self.__int_status == 2)",
-        "implies(self.__int_status == 1, %s)" % sol_recent,
+        "implies(self.__int_status == 1, %s)" % (sol_recent if not dense else "True"),
         "implies(self.__int_status == 2, %s)" % TERMINAL,
         "implies(self.__int_status == 1, forall(lambda i: implies(n_ev0 <= i and i < len(E_V), not %s)))".replace("E_V", EV) % is_term(EV + "[i].ev"),
         # without a terminal event the run ends at its target (or a callback set the step to zero)
@@ -300,6 +302,8 @@ def verify_integrate_events(src, reg, prop, n=1, terminals=(False,), direction=1
     # next call may start from here)
     c.ensures_exc = list(c.ensures_exc) + ev_post[:2] + sol_inv
     fields = dict(c.sorts["self"][2])
+    if dense:
+        fields["_OdeSystem__dense_output"] = ("const", True)
     c.sorts["self"] = ("obj", "OdeSystem", fields)
     orig_make = ex.make_param
 
@@ -348,9 +352,9 @@ def verify_integrate_events(src, reg, prop, n=1, terminals=(False,), direction=1
 # ----------------------------------------------------------------------------------------------------------------
 # jobs (run in parallel processes by props/common.run_jobs)
 # ----------------------------------------------------------------------------------------------------------------
-def config_label(n, terminals, direction, callbacks=0):
-    return "integrate[events=%d,terminal=%s,%s%s]" % (n, "".join("T" if x else "f" for x in terminals), "forward" if direction > 0 else "backward",
-                                                       ",callback" if callbacks else "")
+def config_label(n, terminals, direction, callbacks=0, dense=False):
+    return "integrate[events=%d,terminal=%s,%s%s%s]" % (n, "".join("T" if x else "f" for x in terminals), "forward" if direction > 0 else "backward",
+                                                         ",callback" if callbacks else "", ",dense" if dense else "")
 
 
 def all_outcomes(n, terminals):
@@ -372,10 +376,10 @@ def outcome_partition(n, terminals):
     return parts
 
 
-def job_events(reg, src, prop, n, terminals, direction, callbacks=0, outcomes=None, part=None):
-    label = config_label(n, terminals, direction, callbacks) + ("" if part is None else "#part%d" % part)
+def job_events(reg, src, prop, n, terminals, direction, callbacks=0, outcomes=None, part=None, dense=False):
+    label = config_label(n, terminals, direction, callbacks, dense) + ("" if part is None else "#part%d" % part)
     outs = None if outcomes is None else [tuple(o) if not isinstance(o, str) else o for o in outcomes]
-    ex, c, rets = verify_integrate_events(src, reg, "%s/%s" % (prop, label), n=n, terminals=tuple(terminals), direction=direction, callbacks=callbacks, outcomes=outs)
+    ex, c, rets = verify_integrate_events(src, reg, "%s/%s" % (prop, label), n=n, terminals=tuple(terminals), direction=direction, callbacks=callbacks, outcomes=outs, dense=dense)
     return dict(ex.stats)
 
 
@@ -390,8 +394,8 @@ def event_jobs(prop, n, terminals, direction):
     return jobs
 
 
-def job_recursive(reg, src, prop):
-    ex, c, rets = verify_recursive_contract(src, reg, prop + "/integrate[no-events,no-callback]")
+def job_recursive(reg, src, prop, dense=False, direction=1):
+    ex, c, rets = verify_recursive_contract(src, reg, prop + "/integrate[no-events,no-callback%s%s]" % (",dense" if dense else "", ",backward" if direction < 0 else ""), dense=dense, direction=direction)
     return dict(ex.stats)
 
 
